@@ -45,6 +45,13 @@ def _cls(kind, n):
         body += "    _p: int = 0\n    cv: typing.ClassVar[int] = 9\n"
         deco = "@dataclasses.dataclass(slots=True)" if kind == "dcslots" else "@dataclasses.dataclass"
         src = f"import dataclasses, typing\n{deco}\nclass {name}:\n{body}"
+    elif kind in ("dcchild", "dcslotschild"):
+        # inherited fields first: the base declares the first half (rounded up), the child the rest
+        deco = "@dataclasses.dataclass(slots=True)" if kind == "dcslotschild" else "@dataclasses.dataclass"
+        nb = (n + 1) // 2
+        bbody = "".join(f"    {f}: typing.Any\n" for f in fields[:nb]) or "    pass\n"
+        cbody = "".join(f"    {f}: typing.Any\n" for f in fields[nb:]) or "    pass\n"
+        src = f"import dataclasses, typing\n{deco}\nclass {name}_base:\n{bbody}{deco}\nclass {name}({name}_base):\n{cbody}"
     elif kind == "plain":
         body = "".join(f"    {f}: typing.Any\n" for f in fields) + "    _p: int\n"
         args = "".join(f", {f}" for f in fields)
@@ -84,7 +91,7 @@ def materialise(kind, elems):
         d = {f"k{i + 1}": e for i, e in enumerate(es)}
         return {"dict": lambda: d, "odict": lambda: collections.OrderedDict(d),
                 "mproxy": lambda: types.MappingProxyType(d), "cmap": lambda: _cls("cmap", 0)(d)}[kind](), es
-    if kind in ("dc", "dcslots", "plain", "nt"):
+    if kind in ("dc", "dcslots", "plain", "nt", "dcchild", "dcslotschild"):
         return _cls(kind, n)(*es), es
     if kind in ("slotsonly", "varsonly"):
         o = _cls(kind, n)()
